@@ -5,24 +5,24 @@ HERE = os.path.dirname(os.path.dirname(os.path.abspath(__file__)))
 TECH = {
  "C01": ("byte-set interpretation of the unescape guard (4x256 cells) + def-use term extraction of canonicalize_url (component flow, scheme x port table, trailing slash) + codec error-handler dataflow", "4.C01"),
  "C02": ("dataflow ordering on canonicalize_url terms (cleaning pass, dot-segments vs empty path, unquote vs dot-segments, quoted = quote(unquote)) + regex-language inclusion (escape case, control chars) + byte tables", "4.C02"),
- "C03": ("sibling cross-check of pipeline terms (canonicalize vs normalize transformer sets, port-table agreement, decode-before-filter/sort) + fingerprint-over-normalize term shape", "4.C03"),
- "C04": ("regex-language inclusion of pinned irrelevant-key / sub-domain languages in today's, table inclusion, sort-key injectivity over value classes, required-step and order queries on normalize_url terms", "4.C04"),
- "C05": ("regex-language emptiness (whole-label removal, '&amp;' repair), partial evaluation of normalize_url terms per option (option ownership), allowed-transformer sets per sink, exception-escape over the may-raise table", "4.C05"),
+ "C03": ("sibling cross-check of pipeline terms (canonicalize vs normalize transformer sets, port-table agreement incl. protocol-relative urls, decode-before-filter/sort, fragment decided after unescape, platform parsers fed with the canonical url) + fingerprint_url factors through normalize_url (term shape) + regex-language / callback tables on infer_redirection's pre-pass (letters, control characters)", "4.C03"),
+ "C04": ("regex-language inclusion of pinned irrelevant-key / sub-domain / redirect-spelling languages in today's, table inclusion, sort-key injectivity over value classes, required-step and order queries on normalize_url terms, finite-domain table of the shared host helper (fixed point)", "4.C04"),
+ "C05": ("regex-language emptiness (whole-label removal, '&amp;' repair, protocol language), partial evaluation of normalize_url terms per option (option ownership), allowed-transformer sets per sink, exception-escape over the may-raise table, finite-domain tables (host helper, combo tables, netloc template, query splitting)", "4.C05"),
  "C06": ("term shape of fingerprint_url (constant port/scheme sinks, option defaults, lower-after-unescape), finite-domain interpretation of the language-label guard and query filters", "4.C06"),
- "C07": ("sibling cross-checks: role sets and order of non-commuting steps in hostname helpers vs URL functions, forwarding checks on the *_lru_stems variants, string form = urlunsplit(tuple)", "4.C07"),
- "C08": ("CFG reachability / guard shape features of SuffixTrie.add and __walk + their rule-set conditions evaluated on all 9,952 bundled rules + offset term shapes", "4.C08"),
+ "C07": ("sibling cross-checks on terms: shared host helper and step order in hostname helpers vs URL functions, get_hostname vs safe_urlsplit term equality modulo normal forms, forwarding checks on the *_lru_stems variants, string form = urlunsplit(tuple); decision tables of the protocol helpers", "4.C07"),
+ "C08": ("model table: SuffixTrie interpreted (analyser's own evaluator, no import of ural) on a 13-rule miniature list x host classes against the publicsuffix.org algorithm + rule-set conditions evaluated on all bundled rules + TLD predicate terms", "4.C08"),
  "C09": ("CFG pairing rules on set_and_prune_if_shorter (descend=>record, prune deltas, guard re-establishment), tokenizer agreement add/match via terms, typestate on lookups", "4.C09"),
  "C10": ("sentinel-discipline lint, CFG pairing rules on __setitem__, typestate 'every visited node is examined' on lookups and traversals, exit-shape rules", "4.C10"),
- "C11": ("sibling normalisation of the four LRUTrie entry points (terms), variant forwarding, finite-domain interpretation of clean_trailing_path, shared TrieDict/LRU rules", "4.C11"),
- "C12": ("writer/reader table agreement: tag alphabets (emitter constants, splitter look-ahead class, reader keys), separators, emission guards per component, reader accumulation and assembly templates", "4.C12"),
- "C13": ("emission-order rule over the tagged appends (program order), reversed/forward iteration shapes, suffix-aware guard, serialisation terminator, suffix-trie walk shape", "4.C13"),
+ "C11": ("sibling normalisation of the four LRUTrie entry points (terms, self-helpers inlined), variant forwarding, finite-domain interpretation of clean_trailing_path, normpath against the RFC 3986 reference (all paths <= 4 segments), shared TrieDict typestate/pairing rules", "4.C11"),
+ "C12": ("model tables: lru_stems / url_to_lru / lru_to_url interpreted on one url per component-presence class against the documented stem format and a urlsplit round trip; splitter tag alphabet by constant folding; port-splitter look-ahead language; SuffixTrie model table", "4.C12"),
+ "C13": ("emission-order rule over the tagged appends (program order) + the LRU and SuffixTrie model tables + serialisation terminator + special-host language", "4.C13"),
  "C14": ("byte-set table interpretation of _unquote_impl, hex-table enumeration, regex-language equivalence of the escape patterns, path rule on unquote's returns, codec error-handler dataflow", "4.C14"),
  "C15": ("progress-guard rule: path conditions of the recursive call evaluated over the orderings of len(target) vs len(url); provenance of returned terms", "4.C15"),
- "C16": ("regex-language inclusion lattice of the four URL patterns + truth-table proof of option monotonicity over the decision term + validated-before-yield / index-safety path rules on urls_from_text", "4.C16"),
- "C17": ("twin-regex encoding/flags/ASCII-determinedness, normalised AST comparison of the str/bytes iterators, CFG dominance and order of links_from_html's filter chain, sibling call-site option agreement", "4.C17"),
+ "C16": ("regex-language inclusion lattice of the four URL patterns + truth-table proof of option monotonicity over the decision term (table dispatch folded) + validated-before-yield path rules on urls_from_text when it delegates to no helper + model table of urls_from_text on text classes", "4.C16"),
+ "C17": ("twin-regex encoding/flags/ASCII-determinedness, normalised AST comparison of the str/bytes iterators when both exist, model tables: urls_from_html on document classes (str and bytes) and links_from_html on href classes x 8 option settings against the documented filter chain", "4.C17"),
  "C18": ("regex-language products: string form vs reference url language over U, parsed form vs pinned domain language (look-alike emptiness), attribute-dependence on terms, domain-list hygiene", "4.C18"),
- "C19": ("abstract interpretation (list-length intervals, optional values, dict keys) over 34 platform functions, validator-dominance on record constructions, sibling id predicates, template/route agreement", "4.C19"),
- "C20": ("regex-language facts on PROTOCOL_RE (prefix code, anchoring), branch-template term equality of the protocol helpers, constant-truth lint and value-class interpretation of the builders, writer/reader agreement of add/get_query_argument", "4.C20"),
+ "C19": ("abstract interpretation (list-length intervals with length aliases, optional values, dict keys) over 34 platform functions, validator-dominance on record constructions, template/route agreement, model tables: YouTube and Facebook parsers interpreted on route x id/name classes (totality, valid ids, canonical-url round trip)", "4.C19"),
+ "C20": ("regex-language facts on PROTOCOL_RE (prefix code, anchoring), decision-table reading of the protocol helpers and safe_urlsplit (recognised atomic tests, arms evaluated on marker values), finite-domain tables of format_url / URLFormatter / add_query_argument / safe_qsl_iter, reader/writer agreement of get_query_argument", "4.C20"),
 }
 ND = {
  "C01": "decides component-wise safety conditions only (unescape tables, component ownership, port/slash rules); that the composed steps re-parse to the same components for every string is not derived",
